@@ -62,13 +62,14 @@ NATIVE_TIMEOUT_S = 240
 def build_mreplay(profile):
     if profile in _mreplay_built:
         return _mreplay_built[profile]
-    cmd = ["cargo", "build", "--offline", "--bin", "mreplay", "--features", "hooks", "--target-dir",
-           kani_engine.REPLAY_TARGET]
+    import shutil
+    from common import REPO, VERIF
+    mdir = os.path.join(VERIF, "engines", "mreplay")
+    shutil.copyfile(os.path.join(REPO, "Cargo.lock"), os.path.join(mdir, "Cargo.lock"))
+    cmd = ["cargo", "build", "--offline", "--target-dir", kani_engine.REPLAY_TARGET]
     if profile == "release":
         cmd.append("--release")
-    kani_engine.prepare()
-    p = subprocess.run(cmd, cwd=kani_engine.KDIR, env=env_offline(), stdout=subprocess.PIPE, stderr=subprocess.STDOUT,
-                       text=True)
+    p = subprocess.run(cmd, cwd=mdir, env=env_offline(), stdout=subprocess.PIPE, stderr=subprocess.STDOUT, text=True)
     ok = p.returncode == 0
     if not ok:
         log("mreplay build (%s) failed:\n%s" % (profile, p.stdout[-3000:]))
